@@ -42,6 +42,7 @@ type catchEvent struct {
 	awaitingActions []chan IAction
 	once            sync.Once
 	running         atomic.Bool
+	stopped         chan struct{} // closed when the event loop has ended
 	satisfier       *logic.CatchEventSatisfier
 }
 
@@ -52,6 +53,7 @@ func newCatchEvent(wr *wiring, element *schema.CatchEvent) (evt *catchEvent, err
 		mch:             make(chan imessage, len(wr.incoming)*2+1),
 		activated:       atomic.Bool{},
 		awaitingActions: make([]chan IAction, 0),
+		stopped:         make(chan struct{}),
 		satisfier:       logic.NewCatchEventSatisfier(element, wr.eventDefinitionInstanceBuilder),
 	}
 
@@ -64,6 +66,7 @@ func newCatchEvent(wr *wiring, element *schema.CatchEvent) (evt *catchEvent, err
 
 func (evt *catchEvent) run(ctx context.Context, sender tracing.ISenderHandle) {
 	defer sender.Done()
+	defer close(evt.stopped)
 
 	for {
 		select {
@@ -105,7 +108,12 @@ func (evt *catchEvent) ConsumeEvent(ev event.IEvent) (result event.ConsumptionRe
 		result = event.Consumed
 		return
 	}
-	evt.mch <- processEventMessage{event: ev}
+	select {
+	case evt.mch <- processEventMessage{event: ev}:
+	case <-evt.stopped:
+		// the event loop has ended with its context: nothing reads the inbox
+		// any more and the caller must not block on it
+	}
 	result = event.Consumed
 	return
 }
